@@ -106,6 +106,7 @@ def dialect_spec(rng, i):
         spec["date"] = rng.choice(["both", "both", "ser", "de", "obj", "obj"])
     if rng.random() < 0.3:
         spec["int"] = "both"
+    spec["bytes"] = rng.random() < 0.25      # a type the msgpack format dialect customises itself
     for o in ("omit_none", "omit_default", "serialize_by_alias", "namedtuple_as_dict"):
         if rng.random() < 0.45:
             spec["opts"][o] = rng.random() < 0.65
@@ -144,6 +145,8 @@ def dialect_src(spec, name=None, i=0):
         if spec["date"] in ("both", "de"):
             parts.append("'deserialize': (lambda s: datetime.date.fromisoformat(s.split(':', 1)[-1]))")
         ss.append("datetime.date: {" + ", ".join(parts) + "}")
+    if spec.get("bytes"):
+        ss.append("bytes: {'serialize': (lambda b: 'hex:' + b.hex()), 'deserialize': (lambda s: bytes.fromhex(s[4:]))}")
     if spec["int"]:
         k = len(tag)
         ss.append(f"int: {{'serialize': (lambda v: v + {k}), 'deserialize': (lambda v: v - {k})}}")
@@ -154,19 +157,25 @@ def dialect_src(spec, name=None, i=0):
 
 
 # ------------------------------------------------------------------ part A
-def tree_src(base, default_dialect):
+def tree_src(base, default_dialect, lazy=False):
     cfg = "    class Config(BaseConfig):\n        code_generation_options = [ADD_DIALECT_SUPPORT]\n"
     if default_dialect:
         cfg += f"        dialect = {default_dialect}\n"
+    lazy_cfg = cfg + ("        lazy_compilation = True\n" if lazy else "")
     return f'''
 class NT(NamedTuple):
     a: int
     b: str
 @dataclass
+class Pl:
+    pd: datetime.date = datetime.date(1999, 9, 9)
+    pb: bytes = b'pl'
+@dataclass
 class In({base}):
     d: datetime.date = datetime.date(2000, 1, 1)
     o: Optional[int] = None
     al: int = field(default=3, metadata=field_options(alias='AL'))
+    raw: bytes = b'xy'
 {cfg}
 @dataclass
 class Node({base}):
@@ -184,13 +193,14 @@ class P({base}):
     l: List[In] = field(default_factory=list)
     o: Optional[str] = None
     ints: List[int] = field(default_factory=list)
-{cfg}
+    pl: Pl = field(default_factory=Pl)
+{lazy_cfg}
 @dataclass
 class C(P):
     y: datetime.date = datetime.date(2002, 3, 4)
     al2: Optional[datetime.date] = field(default=None, metadata=field_options(alias='AL2'))
     node: Optional[Node] = None
-{cfg}
+{lazy_cfg}
 '''
 
 
@@ -228,7 +238,8 @@ def part_a(seed, tier, rec, rng):
     fam = Family("c13a")
     twins = []
     try:
-        fam.exec_src(dsrc + tree_src(base, None))
+        lazy = rng.random() < 0.35
+        fam.exec_src(dsrc + tree_src(base, None, lazy))
         mod = fam.module
         nsteps = rng.randint(4, 12 if tier == "quick" else 40)
         hist = []
@@ -245,7 +256,7 @@ def part_a(seed, tier, rec, rng):
             # history started, from the same source)
             if dname not in twin_cache:
                 tw = Family("c13t")
-                tw.exec_src(dsrc + tree_src(base, dname))
+                tw.exec_src(dsrc + tree_src(base, dname, lazy))
                 twins.append(tw)
                 twin_cache[dname] = tw.module
             tmod = twin_cache[dname]
@@ -305,6 +316,7 @@ class A:
     s: str = 'dflt'
     inner: In = field(default_factory=In)
     l: List[datetime.date] = field(default_factory=list)
+#BYTES#
     class Config(BaseConfig):
         allow_deserialization_not_by_alias = True
 '''
@@ -330,7 +342,7 @@ def part_b(seed, tier, rec, rng):
     spec = dialect_spec(rng, 1)
     fam = Family("c13b")
     try:
-        fam.exec_src(FMT_SRC + SHAPE_SRC + dialect_src(spec, "D") + dialect_src(spec, "Dpristine"))
+        fam.exec_src(FMT_SRC + SHAPE_SRC.replace("#BYTES#", "    b: bytes = b'ab\\x00'" if spec.get("bytes") else "") + dialect_src(spec, "D") + dialect_src(spec, "Dpristine"))
         mod = fam.module
         import datetime
         vals = [mod.A(1), mod.A(2, datetime.date(2020, 5, 6), mod.NT(3, "q"), 7, "x", mod.In(datetime.date(2021, 1, 1), 9), [datetime.date(2022, 2, 2)]),
